@@ -69,14 +69,28 @@ def run_program(name, exe, thorough, resolve_args, first=0, last=None):
     env = vlib.clean_env()
     if "preload" in name:
         env["LD_PRELOAD"] = gen_override.LIB
+    if name.endswith("/os-segments"):
+        env["MIMALLOC_DISALLOW_ARENA_ALLOC"] = "1"
     if last is not None:
         env["T_OVERRIDE_LAST"] = str(last)
     lines, crashes = [], []
+    exitfile = os.path.join(vlib.BUILD, "t_override_exit_%s.txt" % re.sub(r'[^a-z+]', '_', name))
+    env["T_OVERRIDE_EXITFILE"] = exitfile
     for attempt in range(MAX_RESTARTS + 1):
+        try: os.remove(exitfile)
+        except OSError: pass
         rc, out, err = vlib.run_split([exe, str(first), "1" if thorough else "0"] + (resolve_args if first == 0 else []),
                                       timeout=900, env=env)
         ls = out.splitlines()
         lines += ls
+        if ls and ls[-1].startswith("END"):
+            # the program finished its checks: it must also EXIT cleanly, and the stream it left buffered must have been flushed by exit()
+            try: data = open(exitfile).read()
+            except OSError: data = None
+            if rc != 0 or data is None or not data.startswith("written before exit"):
+                crashes.append({"idx": -2, "line": "process exit (after all checks): exit status %d, buffered output of an unclosed stream %s" %
+                                (rc, "lost" if rc == 0 else "not flushed"), "rc": rc, "err": err[-400:]})
+            break
         if rc == 0 and ls and ls[-1].startswith("END"):
             break
         marks = [l for l in ls if l.startswith(("B ", "C "))]
@@ -179,12 +193,15 @@ def _run_impl(res, a, thorough, proofs_ok):
     # ---- run ----
     resolve_args = ["%s=%s" % (s, gen_tab[s][0]) for s in sorted(gen_tab)] + \
                    ["%s=%s" % (s, "mi_malloc") for s in req_names if s not in gen_tab]
+    progs["c/preload/os-segments"] = progs["c/preload"]
     if a.replay:
         return _replay(res, a, progs, thorough)
     all_T, n_eval, pairs_seen, fails = [], 0, set(), []
     dist = collections.OrderedDict()
     info = []
-    for name in ("c/preload", "c++/preload", "c/static", "c++/static"):
+    # the fifth run repeats the preloaded C program with arenas disallowed: every segment then comes straight from the OS and is known
+    # to mi_is_in_heap_region / cfree only through the segment map
+    for name in ("c/preload", "c++/preload", "c/static", "c++/static", "c/preload/os-segments"):
         lines, crashes = run_program(name, progs[name], thorough, resolve_args)
         tl = [l for l in lines if l.startswith("T ")]
         all_T += tl
